@@ -9,7 +9,7 @@ import (
 	"strings"
 )
 
-var kindLiteral = map[string]string{"NilClass": "nil", "Integer": "1", "String": "\"s\"", "Bool": "true", "Float": "1.5", "Symbol": ":s"}
+var kindLiteral = map[string]string{"NilClass": "nil", "Integer": "1", "String": "\"s\"", "Bool": "true", "Float": "1.5", "Symbol": ":s", "Va": "Va.new", "Vb": "Vb.new"}
 
 // concretizeSym rewrites a skeleton program that uses the verification-only class Sym into
 // plain Ruby: Sym.a -> a literal of the witnessed kind, Sym.u / Sym.w -> a ternary chain.
@@ -219,7 +219,7 @@ func replayPairNoSym(n *Native, job *Job, v *Violation) (ReplayResult, bool) {
 const symKwJSON = `{"frame": "Builtin", "class": "Sym", "instance_methods": [], "class_methods": [
  {"name": "kw", "arguments": [{"type": ["Int"]}, {"type": ["Int"], "key": "ka:"}, {"type": ["String"], "key": "kb:"}, {"type": ["Int"], "key": "kc:", "is_default": true}], "return_type": {"type": ["Int"]}}]}`
 
-var kindNotation = map[string]string{"NilClass": "NilClass", "Integer": "Int", "String": "String", "Bool": "Bool", "Float": "Float", "Symbol": "Symbol"}
+var kindNotation = map[string]string{"NilClass": "NilClass", "Integer": "Int", "String": "String", "Bool": "Bool", "Float": "Float", "Symbol": "Symbol", "Va": "Va", "Vb": "Vb"}
 
 // symConfigJSON declares the verification-only class Sym natively: a configuration file in
 // which Sym.a/b/c/u/w return the kinds of the witness (and Sym.kw as in symKwJSON). Used for
@@ -227,7 +227,7 @@ var kindNotation = map[string]string{"NilClass": "NilClass", "Integer": "Int", "
 // value to come from a call.
 func symConfigJSON(w map[string]string) (string, bool) {
 	var ms []string
-	for _, name := range []string{"a", "b", "c", "u", "w"} {
+	for _, name := range []string{"a", "b", "c", "n", "o", "u", "w"} {
 		kinds, have := w["Sym."+name]
 		if !have {
 			continue
